@@ -207,6 +207,11 @@ def run(ctx, rep):
     # ---- N3 padding (shared with C15/U5)
     from rules.C15 import check_padding
     check_padding(ctx, rep, "N3")
+    # the padded encodings handed out are the caller's own: nothing in them is retained by the library (a shared padding
+    # row edited by one caller would otherwise show up as non-[nop] padding in a later encoding)
+    from sa.effects import Effects
+    from rules.shared import check_fresh_return
+    check_fresh_return(ctx, Effects(ctx), rep, ctx.fn("selfies.utils.encoding_utils.selfies_to_encoding"), "N3", "selfies_to_encoding")
     rep.analysed.update({"derivation": D.qual, "generator": sorted(g.qual for g in gfuncs), "consumers": n_cons})
 
 
